@@ -23,7 +23,8 @@ EXPLANATION = (
     "floor(-log(a + U(1-a)) / log 2) with a = 2^-(max_reward+1): the log argument is a convex combination in [a, 1], so "
     "the reward lies in [0, max_reward] (max_reward+1 only for U == 0.0 exactly, one Mersenne-Twister output in 2^53). "
     "The empirical loose-tile frequency is NOT decided."
-    ' Also: no function of the generator changes a mutable default argument (0:defaults).')
+    ' Also: no function of the generator changes a mutable default argument (0:defaults).'
+    ' No one-shot iterator is consumed by two checks (0:iter).')
 ASSUMPTIONS = ["random.random() returns U in [0,1)", "argparse converts with the declared type= functions"]
 TECHNIQUE = "symbolic guard summaries + exact cell evaluation; CFG dominance; expression normal forms (ast)"
 
